@@ -463,6 +463,13 @@ func (s *gstate) editOp(kind string, fork Tree) bool {
 			s.log("filectl-swap %s", p)
 			return true
 		}
+		if len(f.Disable) > 0 && s.chance("deldis", 2) {
+			i := s.intn("disidx", 0, len(f.Disable)-1)
+			d := f.Disable[i]
+			f.Disable = append(append([]string{}, f.Disable[:i]...), f.Disable[i+1:]...)
+			s.log("filectl-del %s %s", p, d)
+			return true
+		}
 		d := s.pick("fdisv", fileDisable)
 		found := -1
 		for i, x := range f.Disable {
@@ -662,14 +669,29 @@ func Gen(t *rapid.T, p Profile) History {
 				continue
 			}
 			from := srcs[s.intn("from", 0, len(srcs)-1)]
+			// prefer (1 in 2) a path that existed at the fork point or earlier on the
+			// branch and is gone now: renames onto once-deleted paths
+			var reuse []string
+			for _, fp := range free {
+				_, inFork := fork.Get(fp)
+				for _, bc := range h.Branch {
+					if _, ok := bc.Tree.Get(fp); ok {
+						inFork = true
+					}
+				}
+				if inFork {
+					reuse = append(reuse, fp)
+				}
+			}
+			if len(reuse) > 0 && s.chance("reuse", 2) {
+				free = reuse
+			}
 			to := free[s.intn("to", 0, len(free)-1)]
 			s.ops = nil
 			s.tree[to] = s.tree[from]
 			delete(s.tree, from)
 			c := Commit{Msg: msg, Renames: [][2]string{{from, to}}}
 			if kind == "rename-edit" {
-				all := s.tree[to].Rules()
-				_ = all
 				var refs []ruleRef
 				for gi, g := range s.tree[to].Groups {
 					for ri := range g.Rules {
@@ -690,8 +712,6 @@ func Gen(t *rapid.T, p Profile) History {
 			h.Branch = append(h.Branch, s.editCommit(p.Weights, fork, msg))
 		}
 	}
-	head := s.snapshot()
-
 	// base branch advancing
 	if p.MaxMainAfter > 0 && s.chance("mainafter", 2) {
 		s.load(fork)
@@ -702,6 +722,5 @@ func Gen(t *rapid.T, p Profile) History {
 			h.MainAfter = append(h.MainAfter, c)
 		}
 	}
-	_ = head
 	return h
 }
